@@ -16,7 +16,7 @@ BOUNDS = {'quick': {'tasks': 2, 'graphs': 'all 3 labelled graphs on 2 tasks (non
                     'plus': '3-task chain and hard+soft fan-in with 1 worker; two publishers under a shared environment key (W=2)', 'outcomes': KINDS,
                     'depth': 'every run, first K = 22+11N+6W steps (completeness of K is established in the thorough tier for W=1)'},
           'thorough': {'tasks': '<= 3', 'graphs': 'all 27 labelled hard/soft/none graphs on 3 tasks (W=1), 2-task graphs W<=2; '
-                       'two publishers under a shared environment key (W=2)', 'outcomes': KINDS, 'depth': 'W=1: K = 22+11N+6W established by the unwinding query (every run is complete within K); W=2: first K steps of every run (unwinding query out of reach)'}}
+                       'two publishers under a shared environment key (W=2)', 'outcomes': KINDS, 'depth': 'W=1 and (<= 2 tasks or no soft edge): K = 22+11N+6W established by the unwinding query (every run is complete within K); otherwise first K steps of every run (unwinding query out of reach)'}}
 EXPLANATION = ('per-thread automata extracted from the real scheduler code by symbolic execution between synchronisation points; '
                'z3 bounded model checking (QF_BV) with the interleaving, task outcomes and clock as solver variables; '
                'counterexamples replayed on real threads')
